@@ -1122,7 +1122,10 @@ def check_compare_helpers(cx: Cx, ob: Ob) -> None:
                             continue  # equal strings have equal length (case-folded equal ones need not: 'ß' / 'SS')
                         env = {"E": E, "F": F, "C": Cv, "H": Hv, "L": Lv}
                         got = None
-                        for t, ctx in hs.returns():
+                        # the helper as it runs with this value of the flag (small helpers it calls with the flag as
+                        # a literal argument are then read through on the one path that value selects)
+                        hs_c = cx.summary(h, ob.id, bind={h.params[2].name: Cv})
+                        for t, ctx in hs_c.returns():
                             if all(_bool_eval(g.a, atom, env) == g.b for g in ctx.guards if g.kind == "guard"):
                                 got = _bool_eval(_rewrite(t, bisect_membership), atom, env)
                                 break
